@@ -17,7 +17,7 @@ EV = ("after the call, at the arbitrary instant q: a '+' of the pair is stored i
       "at q are untouched")
 step.register_matrix(
     REG, "ev", "ev", EV,
-    quick=lambda key, n, L, by: L == 2 and (n == 0 or (n == 1 and key in ("u_swap", "d_same", "u_loop", "u_same_by"))),
+    quick=lambda key, n, L, by: L == 2 and (n == 0 or (n == 1 and key in ("u_swap", "d_same", "u_loop"))),
     split=lambda key, n, L, by: n >= 1,
     tags=lambda n: ["accepted", "q_new"] + (["append", "extend", "contained"] if n else []))
 step.register_matrix(
@@ -38,3 +38,8 @@ for key, directed, pat, by in step.patterns():
             tier="quick", timeout=300, finding="F-C05-unclosed-2run", replay=step.replay_step,
             bounds="the excluded region of close_*: latest run [a,a], call add_interaction(u,v,a+1)",
             what="(expected to fail) the 2-instant run created by extending a single instant with the next single instant is closed")
+
+# quick tier: spans of at most one instant for the n=1 conditions (the 2-instant variants take 200-900 s each: thorough)
+for _n, _c in REG.conds.items():
+    if _c.tier == "quick" and _n.endswith("_l2"):
+        _c.tier = "thorough"
